@@ -256,8 +256,9 @@ def normalise(raw_text):
     from .inline import inline_local_closure_calls
     inline_local_closure_calls(j)
     # (5) named booleans: keep the paths that decided a bool local apart up to the branch on it
-    from .inline import split_bool_merges
+    from .inline import decide_linear_bool_switches, split_bool_merges
     for bj in j["bodies"]:
         if bj["kind"] in KINDS or bj["kind"] == "closure":
             split_bool_merges(bj)
+            decide_linear_bool_switches(bj)
     return j, allren, inl
